@@ -23,6 +23,27 @@ The oracle is plain Python: reduced-form counts (table for the exhaustive range,
 method for large |D|, cross-checked against each other on every run), Shanks/Gauss composition and reduction,
 an own Tonelli-Shanks and Miller-Rabin. Nothing from yamaquasi or from the Lean model is used.
 """
+# SIZE AUDIT (quick tier)
+# sizes the code supports: classgroup(d: &Int) takes a 1024-bit Int (ymcls refuses above 512 bits); in practice the run time decides
+# (0.1 s at 128 bits, 1 s at 160, 5..20 s at 200, minutes beyond 230). Width classes inside the code: |D| above 64 / 128 bits (no
+# special path: Int throughout, I256 polynomial values), the parameter tables keyed by adjsize = bits - 2.5 bias at 32/33, 64/65, 80/81,
+# 99/100, 119/120, 128/129, 149/150, 160/161, 180/181 (use_double by default above 180), the factor base: above 800 primes (default
+# parameters: adjsize 157..180 and above ~200) group_structure_sparse is used (class number only), otherwise SmithNormalForm, whose
+# arithmetic depends on the CLASS NUMBER: fast i128 row operations for h < 2^63/N (N = 1, 8: h below 2^60 / 2^63), I256 products above,
+# h as u128 (assert h < 2^125, hmax.log2() < 126), invariants and coordinates as u128 (above u64 for |D| beyond ~130 bits).
+#   op               max |D| quick / thorough / supported          boundary classes reached by quick before this audit
+#   cg_h             44 bits judged exactly, 101 by necessary      32/33 bits (random 16..34): yes; 63/64 bits: by chance; 65 bits: no;
+#                    conditions / the same (40 exact) / see above   128 bits: no; above 128 bits: NEVER (either tier)
+#   cg_full          128 bits (8 runs; 120: 4) / 128 / see above   64, 128 yes; 65, 129 and above: never; h >= 2^60: yes (128 bits);
+#                                                                  h >= 2^63: by chance (L(1) > 1.9 at 128 bits); h >= 2^64: never
+#   cg_poly          128 bits / 128 / see above                    64, 72, 128; nothing above 128
+#   cg_fb_bplus      128 bits / 128                                 table lookups only: nothing size dependent above
+#   cg_b_plus        p < 2^30 (assert of Dividers::new), 30-bit    random 30-bit primes; not the largest prime below 2^30, not the
+#                    primes reached in both tiers                   16/17-bit switch of Dividers
+#   cg_crel_history  large primes to 2^32-1 (u32): reached (1/15 of 400 histories); rf_*: exponents to 2^31-1 (i32 overflow): reached
+# gaps: everything above 128 bits (SmithNormalForm with h above 2^63 / 2^64, u128 invariants and generator coordinates above u64,
+# interval / large prime / a_params classes 129.., the sparse path and the double large prime variation chosen by DEFAULT parameters),
+# |D| of 65 bits. Added: boundary_cases (first in the stream, both tiers, own rng stream).
 import math
 from vlib.pipeline import Case
 
@@ -871,6 +892,65 @@ def ymcls_oracle(case, ans):
     return _check_h(D, h, invs)
 
 
+def _fork(rng, label):
+    """own stream for the boundary family: depends on the run's seed, leaves the stream of the older families untouched"""
+    import random
+    return random.Random(f"{label}:{rng.getstate()[1][:4]}")
+
+
+def _d_with_h_in(rng, lo, hi, cls):
+    """fundamental D of 127..132 bits whose class number lies in [lo, hi) according to the Euler product (8 % margin)"""
+    for _ in range(400):
+        D = random_fundamental(rng, rng.randrange(127, 133), cls)
+        if 1.08 * lo <= analytic_estimate(D) < hi / 1.08:
+            return D
+    raise RuntimeError("no discriminant found")
+
+
+def boundary_cases(rng, tier):
+    """size classes the random families never reach (see SIZE AUDIT): |D| on both sides of 64 and 128 bits, class numbers on both
+    sides of 2^63 and 2^64 (SmithNormalForm switches from i128 to I256 row operations at h = 2^63/N; invariants and generator
+    coordinates leave u64), 140..150 bits (dense, h ~ 2^70..2^75), a discriminant whose DEFAULT factor base exceeds 800 primes
+    (sparse path, class number only: the known finding) and one above 180 bits (double large primes by default, dense, h ~ 2^90).
+    Above 2^46 the oracle has no independent class number: h must annihilate prime forms and sit within 25 % of the Euler
+    product, the invariants must multiply to h; cg_full: every relation line and the generator coordinates are checked."""
+    quick = tier == "quick"
+    cl = [1, 5, 8, 12]
+    for rep in range(1 if quick else 3):
+        for i, bits in enumerate((63, 64, 65, 66)):
+            D = random_fundamental(rng, bits, cl[(i + rep) % 4])
+            yield Case(f"cg_h {D} {(0, 3)[(i + rep) % 2]}", k=False, timeout=240, tag="edge")
+            if bits >= 65:
+                yield Case(f"cg_full {D} 0", k=False, timeout=240, tag="edge")
+                yield Case(f"cg_poly {D} {rng.randrange(0, 24)} 1 25", k=False, timeout=120, tag="edge")
+        for i, bits in enumerate((127, 128, 129, 130, 131, 132)):
+            D = random_fundamental(rng, bits, cl[(i + rep + 1) % 4])
+            yield Case(f"cg_h {D} {(0, 3)[(i + rep) % 2]}", k=False, timeout=240, tag="edge")
+            if bits >= 129:
+                yield Case(f"cg_poly {D} {rng.randrange(0, 24)} 1 25{(' 1', '')[i % 2]}", k=False, timeout=120, tag="edge")
+        # class number just below 2^63, in [2^63, 2^64), in [2^64, 2^65), above 2^65
+        for i, (lo, hi) in enumerate(((1 << 61, 1 << 63), (1 << 63, 1 << 64), (1 << 64, 1 << 65), (1 << 65, 1 << 67))):
+            D = _d_with_h_in(rng, lo, hi, cl[(i + rep + 2) % 4])
+            # (a full run of this size costs the oracle 2..5 s for the relation lines: quick does it for the two middle classes)
+            op = "cg_full" if i in (1, 2) or not quick else "cg_h"
+            yield Case(f"{op} {D} {(0, 3)[(i + rep) % 2]}", k=False, timeout=240, tag="edge")
+        for i, bits in enumerate((140, 150)):
+            D = random_fundamental(rng, bits, cl[(i + rep + 3) % 4])
+            yield Case(f"{'cg_h' if quick else 'cg_full'} {D} {(0, 3)[(i + rep) % 2]}", k=False, timeout=240, tag="edge")
+            yield Case(f"cg_poly {D} {rng.randrange(0, 24)} 1 25", k=False, timeout=120, tag="edge")
+        # default parameters above 800 primes: group_structure_sparse (SPARSE_KEY); above 180 bits: use_double by default
+        D = random_fundamental(rng, 168 if quick else rng.choice([164, 168, 172]), cl[rep % 4])
+        yield Case(f"cg_h {D} {(0, 3)[rep % 2]}", k=False, timeout=240, tag="edge")
+        D = random_fundamental(rng, 184 if quick else rng.choice([184, 190, 200]), cl[(rep + 1) % 4])
+        yield Case(f"cg_h {D} 3", k=False, timeout=300, tag="edge")
+    # b_plus next to the limit of Dividers::new (p < 2^30) and at its 16 / 17-bit switch
+    for p in (1073741789, 1073741783, 65521, 65537, 131071, 131101):
+        assert is_prime(p)
+        for r in (1, p - 1, p // 2, (p + 1) // 2, rng.randrange(p)):
+            for even in ("true", "false"):
+                yield Case(f"cg_b_plus {p} {r} {even}")
+
+
 def cases(tier, rng, extended=False):
     quick = tier == "quick"
     scale = 1 if quick else 6
@@ -879,6 +959,7 @@ def cases(tier, rng, extended=False):
         scale *= 5
         X = max(X, 400000)
     table_upto(X)
+    yield from boundary_cases(_fork(rng, "C18-boundary"), tier)
     if not extended:
         yield from ymcls_cases(tier, rng)
     yield from bplus_cases(rng, 1500 * scale)
@@ -1249,11 +1330,12 @@ def case_kv(case):
 
 def sparse_empty_structure(case, ans):
     """(h, D) when the answer has the shape of the group_structure_sparse defect: a factor base above 800 was
-    requested (`fb=`), a class number h > 1 was returned and NO cyclic factor is listed; else None"""
+    requested (`fb=`) or chosen by the default parameters (|D| of 140 bits or more), a class number h > 1 was returned and NO cyclic factor is listed; else None"""
     case = _norm(case)
     if case.op not in ("cg_h", "cg_full") or ans in ("panic", "abort", "hang", "?", "none"):
         return None
-    if int(case_kv(case).get("fb", "0")) < 808:
+    if int(case_kv(case).get("fb", "0")) < 808 and (-int(case.args[0])).bit_length() < 140:
+        # (default parameters: the factor base exceeds 800 primes from adjsize = 157 on; the dense path asserts det = h)
         return None
     h, invs = _parse_h(ans.split(" | ")[0])
     if invs or h <= 1:
@@ -1338,7 +1420,7 @@ def oracle(case, ans):
         # factors (none) multiply to 1, not to h: an oracle failure, unconditionally (finding_key maps it to the known
         # finding). The class number and the relation lines are judged as usual and reported first when they fail.
         _COV["sparse_empty"] += 1
-        sparse_msg = (f"D = {D}, fb_size = {case_kv(case)['fb']}: class number {sparse[0]} but NO cyclic factor is listed "
+        sparse_msg = (f"D = {D}, fb_size = {case_kv(case).get('fb', 'default')}: class number {sparse[0]} but NO cyclic factor is listed "
                       f"(group_structure_sparse): the listed factors multiply to 1")
     if op == "cg_h":
         h, invs = _parse_h(ans)
@@ -1829,7 +1911,9 @@ HYPOTHESES = [
     "snf_square (rows.len() = gens.len()) and snf_diag_nonneg (diagonal entries >= 0, so that `d as u128` does not wrap); both are checked on every "
     "real result by the driver (invariantsOk)",
 ]
-RULE = ("class numbers: every fundamental D with |D| below the tier bound (4*10^4 quick, 10^6 thorough), each also with a thread pool for a "
+RULE = ("boundary family first, in both tiers: |D| of 63..66 and 127..132 bits, class numbers chosen on both sides of 2^63 and 2^64 (full runs), "
+        "140/150 bits (full runs in thorough), one D whose default factor base exceeds 800 primes (168 bits) and one with double large primes by default "
+        "(184 bits), b_plus at the largest primes below 2^30; then: class numbers: every fundamental D with |D| below the tier bound (4*10^4 quick, 10^6 thorough), each also with a thread pool for a "
         "1/23 sample; random fundamental D of 16..34 (quick) / 16..40 (thorough) bits in the four classes D mod 16 in {1 mod 8, 5 mod 8, 8, 12}, "
         "some of 41..44 bits; composite D with known prime factors up to 100 bits (2-rank); full runs with an output directory for 8..128-bit D "
         "(every relation line checked), with and without thread pool, and with the double large prime variation forced (40..128 bits); the real "
